@@ -474,6 +474,7 @@ package gkvlite
 //@   ensures [C15] slot-backed: refcb(c.store) && err == nil && iloc != nil && iloc.item != nil ==> net[iloc.item] >= 1
 //@   ensures [C15] balance-loaded: refcb(c.store) && err == nil && icur != nil && fresh(icur) ==> net[icur] == 1 && (forall j :: j != icur && j != old(iloc.item) ==> net[j] == old(net[j])) && (old(iloc.item) != nil ==> net[old(iloc.item)] == old(net[old(iloc.item)]) - 1)
 //@   ensures [C15] balance-failed: refcb(c.store) && err != nil ==> forall j :: !fresh(j) ==> net[j] == old(net[j])
+//@   ensures [C15] key-only-load-releases-nothing: !withValue ==> forall j {net[j]} :: !fresh(j) ==> net[j] == old(net[j])
 //@   postulate item-denotes-the-slot: icur != nil ==> ia(icur) == ias[iloc] && ikey(ia(icur)) == ord(icur.Key) && ipri(ia(icur)) == icur.Priority
 
 //@ func (*nodeLoc).read
@@ -497,6 +498,7 @@ package gkvlite
 //@   ensures [C02,C14,C13] loaded-aggregates: nloc != nil && old(nloc.node) == nil && !emptyLoc(nloc.loc) && err == nil ==> n.numNodes == fbe64(fbytes[o.file], nloc.loc.Offset + 36) && n.numBytes == fbe64(fbytes[o.file], nloc.loc.Offset + 44) && n.next == nil
 //@   postulate nil-means-empty: err == nil && n == nil ==> isLeaf(tvs[nloc])
 //@   postulate node-denotes-the-slot: n != nil ==> tv(n) == tvs[nloc] && nodeInv(n) && !isLeaf(tvs[nloc])
+//@   postulate unpersisted-items-carry-values: n != nil && n.item.item != nil && n.item.item.Val == nil ==> !emptyLoc(n.item.loc)
 
 // ---------------------------------------------------------------------------
 // store.go: the root record
@@ -690,8 +692,9 @@ package gkvlite
 //@   relies chained-version-is-distinct: r.chainedRootNodeLoc != r
 //@   modifies rootNodeLoc.refs, rootNodeLoc.root, rootNodeLoc.next, rootNodeLoc.chainedCollection, rootNodeLoc.chainedRootNodeLoc, node.numNodes, node.numBytes, node.next, itemLoc.loc, itemLoc.item, nodeLoc.loc, nodeLoc.node, nodeLoc.next, mem.ptr, G.freeNodes, G.freeNodeLocs, G.freeRootNodeLocs, AllocStats.CurFreeNodes, AllocStats.FreeNodes, AllocStats.CurFreeNodeLocs, AllocStats.FreeNodeLocs, AllocStats.CurFreeRootNodeLocs, AllocStats.FreeRootNodeLocs, ghost net, ghost tvs
 //@   decreases chainlen(r) + 1
-//@   ensures [C10,C04] R5-still-referenced-means-untouched: old(r.refs) > 1 ==> r.refs == old(r.refs) - 1 && freeNodes == old(freeNodes) && freeNodeLocs == old(freeNodeLocs) && freeRootNodeLocs == old(freeRootNodeLocs) && net == old(net) && node.next == old(node.next) && nodeLoc.node == old(nodeLoc.node) && nodeLoc.loc == old(nodeLoc.loc) && itemLoc.item == old(itemLoc.item) && rootNodeLoc.root == old(rootNodeLoc.root)
+//@   ensures [C10,C04] R5-still-referenced-means-untouched: old(r.refs) > 1 ==> r.refs == old(r.refs) - 1 && freeNodes == old(freeNodes) && freeNodeLocs == old(freeNodeLocs) && freeRootNodeLocs == old(freeRootNodeLocs) && net == old(net) && node.next == old(node.next) && nodeLoc.node == old(nodeLoc.node) && nodeLoc.loc == old(nodeLoc.loc) && itemLoc.item == old(itemLoc.item) && rootNodeLoc.root == old(rootNodeLoc.root) && tvs == old(tvs) && nodeLoc.next == old(nodeLoc.next) && rootNodeLoc.next == old(rootNodeLoc.next) && rootNodeLoc.chainedCollection == old(rootNodeLoc.chainedCollection) && rootNodeLoc.chainedRootNodeLoc == old(rootNodeLoc.chainedRootNodeLoc)
 //@   ensures [C10] R5-only-this-count: old(r.refs) > 1 ==> forall x :: x != r ==> rootNodeLoc.refs[x] == old(rootNodeLoc.refs[x])
+//@   ensures [C10,C04] R7-last-release-frees-only-this-version: old(r.refs) <= 1 && (old(r.chainedCollection) == nil || old(r.chainedRootNodeLoc) == nil) ==> (forall x {tvs[x]} :: x != old(r.root) ==> tvs[x] == old(tvs)[x]) && (forall v {rootNodeLoc.root[v]} {rootNodeLoc.refs[v]} {rootNodeLoc.next[v]} {rootNodeLoc.chainedCollection[v]} {rootNodeLoc.chainedRootNodeLoc[v]} :: v != r ==> rootNodeLoc.root[v] == old(rootNodeLoc.root[v]) && rootNodeLoc.refs[v] == old(rootNodeLoc.refs[v]) && rootNodeLoc.next[v] == old(rootNodeLoc.next[v]) && rootNodeLoc.chainedCollection[v] == old(rootNodeLoc.chainedCollection[v]) && rootNodeLoc.chainedRootNodeLoc[v] == old(rootNodeLoc.chainedRootNodeLoc[v]))
 //@   loop 0 modifies node.numNodes, node.numBytes, node.next, itemLoc.loc, itemLoc.item, nodeLoc.loc, nodeLoc.node, nodeLoc.next, r.reclaimLater, G.freeNodes, AllocStats.CurFreeNodes, AllocStats.FreeNodes, ghost net
 //@   after (*Collection).rootDecRefUnlocked.0 assumes r.root == old(r.root) && r.next == old(r.next) && r.refs == old(r.refs) && r.superseded == old(r.superseded) && (r.root != nil ==> r.root.next == old(r.root.next) && r.root.node == old(r.root.node)) && r.reclaimLater[0] == old(r.reclaimLater[0]) && r.reclaimLater[1] == old(r.reclaimLater[1]) && r.reclaimLater[2] == old(r.reclaimLater[2])
 //@   loop 0 invariant bounds: 0 <= i && i <= 3
@@ -709,8 +712,9 @@ package gkvlite
 //@   relies not-on-the-free-list: r.next == nil
 //@   relies root-loc-not-on-the-free-list: r.root != nil ==> r.root.next == nil
 //@   modifies rootNodeLoc.refs, rootNodeLoc.root, rootNodeLoc.next, rootNodeLoc.chainedCollection, rootNodeLoc.chainedRootNodeLoc, node.numNodes, node.numBytes, node.next, itemLoc.loc, itemLoc.item, nodeLoc.loc, nodeLoc.node, nodeLoc.next, mem.ptr, G.freeNodes, G.freeNodeLocs, G.freeRootNodeLocs, AllocStats.CurFreeNodes, AllocStats.FreeNodes, AllocStats.CurFreeNodeLocs, AllocStats.FreeNodeLocs, AllocStats.CurFreeRootNodeLocs, AllocStats.FreeRootNodeLocs, ghost net, ghost tvs
-//@   ensures [C10,C04,C05] R5-still-referenced-means-untouched: old(r.refs) > 1 ==> r.refs == old(r.refs) - 1 && freeNodes == old(freeNodes) && freeNodeLocs == old(freeNodeLocs) && freeRootNodeLocs == old(freeRootNodeLocs) && net == old(net) && node.next == old(node.next) && nodeLoc.node == old(nodeLoc.node) && nodeLoc.loc == old(nodeLoc.loc) && itemLoc.item == old(itemLoc.item) && rootNodeLoc.root == old(rootNodeLoc.root)
+//@   ensures [C10,C04,C05] R5-still-referenced-means-untouched: old(r.refs) > 1 ==> r.refs == old(r.refs) - 1 && freeNodes == old(freeNodes) && freeNodeLocs == old(freeNodeLocs) && freeRootNodeLocs == old(freeRootNodeLocs) && net == old(net) && node.next == old(node.next) && nodeLoc.node == old(nodeLoc.node) && nodeLoc.loc == old(nodeLoc.loc) && itemLoc.item == old(itemLoc.item) && rootNodeLoc.root == old(rootNodeLoc.root) && tvs == old(tvs) && nodeLoc.next == old(nodeLoc.next) && rootNodeLoc.next == old(rootNodeLoc.next) && rootNodeLoc.chainedCollection == old(rootNodeLoc.chainedCollection) && rootNodeLoc.chainedRootNodeLoc == old(rootNodeLoc.chainedRootNodeLoc)
 //@   ensures [C10] R5-only-this-count: old(r.refs) > 1 ==> forall x :: x != r ==> rootNodeLoc.refs[x] == old(rootNodeLoc.refs[x])
+//@   ensures [C10,C04] R7-last-release-frees-only-this-version: old(r.refs) <= 1 && (old(r.chainedCollection) == nil || old(r.chainedRootNodeLoc) == nil) ==> (forall x {tvs[x]} :: x != old(r.root) ==> tvs[x] == old(tvs)[x]) && (forall v {rootNodeLoc.root[v]} {rootNodeLoc.refs[v]} {rootNodeLoc.next[v]} {rootNodeLoc.chainedCollection[v]} {rootNodeLoc.chainedRootNodeLoc[v]} :: v != r ==> rootNodeLoc.root[v] == old(rootNodeLoc.root[v]) && rootNodeLoc.refs[v] == old(rootNodeLoc.refs[v]) && rootNodeLoc.next[v] == old(rootNodeLoc.next[v]) && rootNodeLoc.chainedCollection[v] == old(rootNodeLoc.chainedCollection[v]) && rootNodeLoc.chainedRootNodeLoc[v] == old(rootNodeLoc.chainedRootNodeLoc[v]))
 
 //@ func (*Collection).rootCAS
 //@   props C04 C05 C10 C12
@@ -723,6 +727,7 @@ package gkvlite
 //@   ensures [C05,C04] swapped-iff-current: result == (old(t.root) == prev) && (result ==> t.root == next) && (!result ==> t.root == old(t.root))
 //@   ensures [C10] R4-chain: result && prev != nil && old(prev.refs) > 2 && prev != next ==> prev.chainedCollection == t && prev.chainedRootNodeLoc == next && next.refs == old(next.refs) + 1
 //@   ensures [C10] R4-no-chain: result && (prev == nil || old(prev.refs) <= 2) ==> rootNodeLoc.refs == old(rootNodeLoc.refs) && rootNodeLoc.chainedRootNodeLoc == old(rootNodeLoc.chainedRootNodeLoc) && rootNodeLoc.chainedCollection == old(rootNodeLoc.chainedCollection)
+//@   ensures [C10] R4-only-these-change: (forall x {rootNodeLoc.refs[x]} :: x != next ==> rootNodeLoc.refs[x] == old(rootNodeLoc.refs[x])) && (forall x {rootNodeLoc.chainedCollection[x]} {rootNodeLoc.chainedRootNodeLoc[x]} :: x != prev ==> rootNodeLoc.chainedCollection[x] == old(rootNodeLoc.chainedCollection[x]) && rootNodeLoc.chainedRootNodeLoc[x] == old(rootNodeLoc.chainedRootNodeLoc[x])) && next.refs >= old(next.refs)
 //@   ensures [C05] failed-changes-nothing: !result ==> rootNodeLoc.refs == old(rootNodeLoc.refs) && rootNodeLoc.chainedRootNodeLoc == old(rootNodeLoc.chainedRootNodeLoc) && rootNodeLoc.chainedCollection == old(rootNodeLoc.chainedCollection)
 
 //@ func (*Collection).markTreeUnlocked
@@ -1072,4 +1077,110 @@ package gkvlite
 //@   ensures [C01] older-item-slots-stay-occupied: forall y {itemLoc.loc[y]} {itemLoc.item[y]} :: !fresh(y) ==> itemLoc.loc[y] == old(itemLoc.loc[y]) && (old(itemLoc.item[y]) != nil ==> itemLoc.item[y] != nil)
 //@   ensures [C10] older-handles-keep-their-link: forall x {nodeLoc.next[x]} :: !fresh(x) ==> nodeLoc.next[x] == old(nodeLoc.next[x])
 //@   ensures [C10] result-is-a-fresh-handle: res == emptyNodeLoc || (fresh(res) && res.next == nil)
+//@   ensures [C19] no-value-bytes: io.valbytes == old(io.valbytes)
+
+// ===========================================================================
+// collection.go: the public map operations (C01), over the abstract tree denoted by the current root
+
+//@ func (*Collection).GetItem
+//@   props C01 C19 C07 C15 C05 C04 C09 C18
+//@   from: C01 statement ("a lookup yields the last value and priority stored under the key (or nil)"), C19 (key-only), C15 (the returned item carries a reference for the caller), C04/C09 (a lookup changes nothing)
+//@   requires [C05,C18] nolocks: locks == emptyLocks()
+//@   requires t != nil && t.store != nil && t.rootLock != nil && t.compare != nil
+//@   requires [C07] open-handle: t.root != nil
+//@   relies root-lock-is-private: t.rootLock != ref(freeNodeLock) && t.rootLock != ref(freeNodeLocLock) && t.rootLock != ref(freeRootNodeLocLock)
+//@   relies [C04] current-version-is-live: t.root.refs >= 1 && t.root.root != nil && t.root.next == nil
+//@   relies [C13] published-root-is-a-search-tree: bst(tvs[t.root.root])
+//@   modifies rootNodeLoc.refs, rootNodeLoc.root, rootNodeLoc.next, rootNodeLoc.chainedCollection, rootNodeLoc.chainedRootNodeLoc, node.numNodes, node.numBytes, node.next, itemLoc.loc, itemLoc.item, nodeLoc.loc, nodeLoc.node, nodeLoc.next, mem.ptr, G.freeNodes, G.freeNodeLocs, G.freeRootNodeLocs, AllocStats.CurFreeNodes, AllocStats.FreeNodes, AllocStats.CurFreeNodeLocs, AllocStats.FreeNodeLocs, AllocStats.CurFreeRootNodeLocs, AllocStats.FreeRootNodeLocs, ghost net, ghost tvs, t.store.nodeAllocs, new ploc.Offset, new ploc.Length, new node.numNodes, new node.numBytes, new node.next, new itemLoc.loc, new itemLoc.item, new nodeLoc.loc, new nodeLoc.node, new nodeLoc.next, new Item.Key, new Item.Val, new Item.Priority, new Item.Transient, new mem.byte, ghost io.fails, ghost io.reads, ghost io.valbytes, ghost src
+//@   ensures [C07] E1: io.fails >= old(io.fails) && (io.fails > old(io.fails) ==> err != nil)
+//@   ensures [C01] lookup: err == nil ==> (i == nil) == !mem(ord(key), old(tvs)[old(t.root.root)]) && (i != nil ==> ia(i) == itemAt(ord(key), old(tvs)[old(t.root.root)]) && ikey(ia(i)) == ord(key) && ipri(ia(i)) == i.Priority)
+//@   ensures [C01] value-when-asked: err == nil && i != nil && withValue ==> i.Val != nil
+//@   ensures [C07] error-means-no-item: err != nil ==> i == nil
+//@   ensures [C19] key-only-reads-no-value: !withValue ==> io.valbytes == old(io.valbytes)
+//@   ensures [C04,C09] lookup-changes-nothing: t.root == old(t.root) && rootNodeLoc.refs == old(rootNodeLoc.refs) && rootNodeLoc.root == old(rootNodeLoc.root) && rootNodeLoc.next == old(rootNodeLoc.next) && rootNodeLoc.chainedCollection == old(rootNodeLoc.chainedCollection) && rootNodeLoc.chainedRootNodeLoc == old(rootNodeLoc.chainedRootNodeLoc) && tvs == old(tvs) && ias == old(ias) && (forall m {node.next[m]} :: !fresh(m) ==> node.next[m] == old(node.next[m])) && (forall x {nodeLoc.loc[x]} {nodeLoc.next[x]} :: !fresh(x) ==> nodeLoc.loc[x] == old(nodeLoc.loc[x]) && nodeLoc.next[x] == old(nodeLoc.next[x])) && freeNodes == old(freeNodes) && freeNodeLocs == old(freeNodeLocs) && freeRootNodeLocs == old(freeRootNodeLocs)
+//@   ensures [C15] caller-gets-a-reference: refcb(t.store) && i != nil ==> net[i] >= 1
+//@   ensures [C15] key-only-lookup-takes-exactly-one-reference: !withValue ==> (forall j {net[j]} :: !fresh(j) && (j != i || i == nil) ==> net[j] == old(net[j])) && (i != nil && !fresh(i) && t.store.callbacks.ItemAddRef != nil ==> net[i] == old(net[i]) + 1) && (i != nil && !fresh(i) && t.store.callbacks.ItemAddRef == nil ==> net[i] == old(net[i]))
+//@   loop 0 modifies nodeLoc.node, itemLoc.item, ghost net, t.store.nodeAllocs, new ploc.Offset, new ploc.Length, new node.numNodes, new node.numBytes, new node.next, new itemLoc.loc, new itemLoc.item, new nodeLoc.loc, new nodeLoc.node, new nodeLoc.next, new Item.Key, new Item.Val, new Item.Priority, new Item.Transient, new mem.byte, ghost io.fails, ghost io.reads, ghost io.valbytes, ghost src
+//@   loop 0 invariant descent: n != nil && bst(tvs[n]) && mem(ord(key), tvs[n]) == mem(ord(key), old(tvs)[old(t.root.root)]) && (mem(ord(key), tvs[n]) ==> itemAt(ord(key), tvs[n]) == itemAt(ord(key), old(tvs)[old(t.root.root)]))
+//@   loop 0 invariant pinned: rnl == old(t.root) && rnl.refs == old(t.root.refs) + 1 && io.fails == old(io.fails)
+//@   loop 0 invariant [C19] no-value-yet: io.valbytes == old(io.valbytes)
+//@   loop 0 invariant [C15] nothing-released-yet: forall j {net[j]} :: !fresh(j) ==> net[j] == old(net[j])
+//@   loop 0 decreases cnt(tvs[n])
+
+//@ func (*Collection).Get
+//@   props C01 C07 C15 C05 C04
+//@   requires [C05,C18] nolocks: locks == emptyLocks()
+//@   requires t != nil && t.store != nil && t.rootLock != nil && t.compare != nil
+//@   requires [C07] open-handle: t.root != nil
+//@   modifies rootNodeLoc.refs, rootNodeLoc.root, rootNodeLoc.next, rootNodeLoc.chainedCollection, rootNodeLoc.chainedRootNodeLoc, node.numNodes, node.numBytes, node.next, itemLoc.loc, itemLoc.item, nodeLoc.loc, nodeLoc.node, nodeLoc.next, mem.ptr, G.freeNodes, G.freeNodeLocs, G.freeRootNodeLocs, AllocStats.CurFreeNodes, AllocStats.FreeNodes, AllocStats.CurFreeNodeLocs, AllocStats.FreeNodeLocs, AllocStats.CurFreeRootNodeLocs, AllocStats.FreeRootNodeLocs, ghost net, ghost tvs, t.store.nodeAllocs, new ploc.Offset, new ploc.Length, new node.numNodes, new node.numBytes, new node.next, new itemLoc.loc, new itemLoc.item, new nodeLoc.loc, new nodeLoc.node, new nodeLoc.next, new Item.Key, new Item.Val, new Item.Priority, new Item.Transient, new mem.byte, ghost io.fails, ghost io.reads, ghost io.valbytes, ghost src
+//@   ensures [C07] E1: io.fails >= old(io.fails) && (io.fails > old(io.fails) ==> err != nil)
+//@   ensures [C01] lookup: err == nil ==> (val == nil) == !mem(ord(key), old(tvs)[old(t.root.root)])
+//@   ensures [C04,C09] lookup-changes-nothing: t.root == old(t.root) && rootNodeLoc.refs == old(rootNodeLoc.refs) && rootNodeLoc.root == old(rootNodeLoc.root) && rootNodeLoc.next == old(rootNodeLoc.next) && rootNodeLoc.chainedCollection == old(rootNodeLoc.chainedCollection) && rootNodeLoc.chainedRootNodeLoc == old(rootNodeLoc.chainedRootNodeLoc) && tvs == old(tvs) && ias == old(ias) && (forall m {node.next[m]} :: !fresh(m) ==> node.next[m] == old(node.next[m])) && (forall x {nodeLoc.loc[x]} {nodeLoc.next[x]} :: !fresh(x) ==> nodeLoc.loc[x] == old(nodeLoc.loc[x]) && nodeLoc.next[x] == old(nodeLoc.next[x])) && freeNodes == old(freeNodes) && freeNodeLocs == old(freeNodeLocs) && freeRootNodeLocs == old(freeRootNodeLocs)
+
+//@ func (*Collection).Exist
+//@   props C01 C07 C15 C19 C05 C04
+//@   requires [C05,C18] nolocks: locks == emptyLocks()
+//@   requires t != nil && t.store != nil && t.rootLock != nil && t.compare != nil
+//@   requires [C07] open-handle: t.root != nil
+//@   modifies rootNodeLoc.refs, rootNodeLoc.root, rootNodeLoc.next, rootNodeLoc.chainedCollection, rootNodeLoc.chainedRootNodeLoc, node.numNodes, node.numBytes, node.next, itemLoc.loc, itemLoc.item, nodeLoc.loc, nodeLoc.node, nodeLoc.next, mem.ptr, G.freeNodes, G.freeNodeLocs, G.freeRootNodeLocs, AllocStats.CurFreeNodes, AllocStats.FreeNodes, AllocStats.CurFreeNodeLocs, AllocStats.FreeNodeLocs, AllocStats.CurFreeRootNodeLocs, AllocStats.FreeRootNodeLocs, ghost net, ghost tvs, t.store.nodeAllocs, new ploc.Offset, new ploc.Length, new node.numNodes, new node.numBytes, new node.next, new itemLoc.loc, new itemLoc.item, new nodeLoc.loc, new nodeLoc.node, new nodeLoc.next, new Item.Key, new Item.Val, new Item.Priority, new Item.Transient, new mem.byte, ghost io.fails, ghost io.reads, ghost io.valbytes, ghost src
+//@   ensures [C01] never-invents-a-key: result ==> mem(ord(key), old(tvs)[old(t.root.root)])
+//@   ensures [C01,C07] answer-is-the-maps: result == mem(ord(key), old(tvs)[old(t.root.root)])
+//@   ensures [C19] key-only-reads-no-value: io.valbytes == old(io.valbytes)
+//@   ensures [C04,C09] lookup-changes-nothing: t.root == old(t.root) && rootNodeLoc.refs == old(rootNodeLoc.refs) && rootNodeLoc.root == old(rootNodeLoc.root) && rootNodeLoc.next == old(rootNodeLoc.next) && rootNodeLoc.chainedCollection == old(rootNodeLoc.chainedCollection) && rootNodeLoc.chainedRootNodeLoc == old(rootNodeLoc.chainedRootNodeLoc) && tvs == old(tvs) && ias == old(ias) && (forall m {node.next[m]} :: !fresh(m) ==> node.next[m] == old(node.next[m])) && (forall x {nodeLoc.loc[x]} {nodeLoc.next[x]} :: !fresh(x) ==> nodeLoc.loc[x] == old(nodeLoc.loc[x]) && nodeLoc.next[x] == old(nodeLoc.next[x])) && freeNodes == old(freeNodes) && freeNodeLocs == old(freeNodeLocs) && freeRootNodeLocs == old(freeRootNodeLocs)
+//@   ensures [C15] balanced: refcb(t.store) ==> forall j {net[j]} :: !fresh(j) ==> net[j] == old(net[j])
+
+//@ func (*Collection).SetItem
+//@   props C01 C13 C07 C10 C15 C19 C05 C04
+//@   from: C01 statement ("a lookup yields the last value and priority stored under the key", "Items with an empty or oversized (>65535 byte) key, a nil value or a negative priority are rejected with an error and change nothing"); C13 ("As long as no key is overwritten with a lower priority than it had, no child outranks its parent"); C07 ("failed calls change nothing")
+//@   requires [C05,C18] nolocks: locks == emptyLocks()
+//@   requires t != nil && t.store != nil && t.rootLock != nil && t.compare != nil && item != nil
+//@   requires [C07] open-handle: t.root != nil
+//@   relies root-lock-is-private: t.rootLock != ref(freeNodeLock) && t.rootLock != ref(freeNodeLocLock) && t.rootLock != ref(freeRootNodeLocLock)
+//@   relies [C04] current-version-is-live: t.root.refs >= 1 && t.root.root != nil && t.root.next == nil
+//@   relies [C13] published-root-is-a-search-tree: bst(tvs[t.root.root])
+//@   relies a-current-version-has-never-been-superseded: t.root.chainedCollection == nil && t.root.chainedRootNodeLoc == nil
+//@   relies abstraction-of-the-new-item: ikey(ia(item)) == ord(item.Key) && ipri(ia(item)) == item.Priority && ibytes(ia(item)) == len(item.Key) + vlenOf(t.store, item)
+//@   modifies t.root, rootNodeLoc.refs, rootNodeLoc.root, rootNodeLoc.next, rootNodeLoc.superseded, rootNodeLoc.chainedCollection, rootNodeLoc.chainedRootNodeLoc, node.numNodes, node.numBytes, node.next, itemLoc.loc, itemLoc.item, nodeLoc.loc, nodeLoc.node, nodeLoc.next, mem.ptr, t.store.nodeAllocs, G.freeNodes, G.freeNodeLocs, G.freeRootNodeLocs, AllocStats.MkNodes, AllocStats.AllocNodes, AllocStats.CurFreeNodes, AllocStats.FreeNodes, AllocStats.MkNodeLocs, AllocStats.AllocNodeLocs, AllocStats.CurFreeNodeLocs, AllocStats.FreeNodeLocs, AllocStats.MkRootNodeLocs, AllocStats.AllocRootNodeLocs, AllocStats.CurFreeRootNodeLocs, AllocStats.FreeRootNodeLocs, new ploc.Offset, new ploc.Length, new Item.Key, new Item.Val, new Item.Priority, new Item.Transient, new mem.byte, ghost net, ghost tvs, ghost ias, ghost io.fails, ghost io.reads, ghost io.valbytes, ghost src
+//@   after (*Store).ItemAddRef.0 assumes tv(n) == mkTree(leafTree(), ia(item), leafTree())
+//@   after (*Store).ItemAddRef.0 sets ias := upd(ias, ref(n.item), ia(item))
+//@   after (*Collection).mkNodeLoc.0 asserts [C13] new-node-is-well-formed: nodeInv(n)
+//@   ensures [C07] E1: io.fails >= old(io.fails) && (io.fails > old(io.fails) ==> err != nil)
+//@   ensures [C01] rejected-items-change-nothing: t.store.readOnly || item.Key == nil || len(item.Key) > 65535 || len(item.Key) == 0 || item.Val == nil || item.Priority < 0 ==> err != nil && t.root == old(t.root) && tvs == old(tvs) && ias == old(ias) && rootNodeLoc.refs == old(rootNodeLoc.refs) && rootNodeLoc.root == old(rootNodeLoc.root) && net == old(net)
+//@   ensures [C01] stored: err == nil ==> bst(tvs[t.root.root]) && (forall k {mem(k, tvs[t.root.root])} {mem(k, old(tvs)[old(t.root.root)])} :: mem(k, tvs[t.root.root]) == (mem(k, old(tvs)[old(t.root.root)]) || k == ord(item.Key))) && itemAt(ord(item.Key), tvs[t.root.root]) == ia(item) && (forall k {itemAt(k, tvs[t.root.root])} :: k != ord(item.Key) && mem(k, old(tvs)[old(t.root.root)]) ==> itemAt(k, tvs[t.root.root]) == itemAt(k, old(tvs)[old(t.root.root)]))
+//@   ensures [C13] heap-order-kept: err == nil && hp(old(tvs)[old(t.root.root)]) && (mem(ord(item.Key), old(tvs)[old(t.root.root)]) ==> ipri(itemAt(ord(item.Key), old(tvs)[old(t.root.root)])) <= item.Priority) ==> hp(tvs[t.root.root])
+//@   ensures [C04,C13] new-version-is-well-formed: err == nil ==> t.root != nil && t.root.refs >= 1 && t.root.root != nil && t.root.next == nil && t.root.chainedCollection == nil && t.root.chainedRootNodeLoc == nil
+//@   ensures [C07] failed-call-changes-nothing: err != nil ==> t.root == old(t.root) && t.root.refs == old(t.root.refs) && t.root.root == old(t.root.root) && tvs[t.root.root] == old(tvs)[old(t.root.root)]
+//@   ensures [C07,C10] failed-call-leaves-no-marks: err != nil ==> forall m {node.next[m]} :: !fresh(m) ==> node.next[m] == old(node.next[m])
+//@   ensures [C19] no-value-bytes: io.valbytes == old(io.valbytes)
+
+//@ func (*Collection).Set
+//@   props C01 C13 C07 C05
+//@   requires [C05,C18] nolocks: locks == emptyLocks()
+//@   requires t != nil && t.store != nil && t.rootLock != nil && t.compare != nil
+//@   requires [C07] open-handle: t.root != nil
+//@   modifies t.root, rootNodeLoc.refs, rootNodeLoc.root, rootNodeLoc.next, rootNodeLoc.superseded, rootNodeLoc.chainedCollection, rootNodeLoc.chainedRootNodeLoc, node.numNodes, node.numBytes, node.next, itemLoc.loc, itemLoc.item, nodeLoc.loc, nodeLoc.node, nodeLoc.next, mem.ptr, t.store.nodeAllocs, G.freeNodes, G.freeNodeLocs, G.freeRootNodeLocs, AllocStats.MkNodes, AllocStats.AllocNodes, AllocStats.CurFreeNodes, AllocStats.FreeNodes, AllocStats.MkNodeLocs, AllocStats.AllocNodeLocs, AllocStats.CurFreeNodeLocs, AllocStats.FreeNodeLocs, AllocStats.MkRootNodeLocs, AllocStats.AllocRootNodeLocs, AllocStats.CurFreeRootNodeLocs, AllocStats.FreeRootNodeLocs, new ploc.Offset, new ploc.Length, new Item.Key, new Item.Val, new Item.Priority, new Item.Transient, new mem.byte, ghost net, ghost tvs, ghost ias, ghost io.fails, ghost io.reads, ghost io.valbytes, ghost src
+//@   ensures [C07] E1: io.fails >= old(io.fails) && (io.fails > old(io.fails) ==> result != nil)
+//@   ensures [C01] rejected-items-change-nothing: t.store.readOnly || key == nil || len(key) > 65535 || len(key) == 0 || val == nil ==> result != nil && t.root == old(t.root) && tvs == old(tvs) && ias == old(ias) && rootNodeLoc.refs == old(rootNodeLoc.refs) && rootNodeLoc.root == old(rootNodeLoc.root)
+//@   ensures [C01] stored: result == nil ==> bst(tvs[t.root.root]) && (forall k {mem(k, tvs[t.root.root])} {mem(k, old(tvs)[old(t.root.root)])} :: mem(k, tvs[t.root.root]) == (mem(k, old(tvs)[old(t.root.root)]) || k == ord(key))) && (forall k {itemAt(k, tvs[t.root.root])} :: k != ord(key) && mem(k, old(tvs)[old(t.root.root)]) ==> itemAt(k, tvs[t.root.root]) == itemAt(k, old(tvs)[old(t.root.root)]))
+//@   ensures [C07] failed-call-changes-nothing: result != nil ==> t.root == old(t.root) && t.root.refs == old(t.root.refs) && t.root.root == old(t.root.root) && tvs[t.root.root] == old(tvs)[old(t.root.root)]
+
+//@ func (*Collection).Delete
+//@   props C01 C13 C07 C10 C15 C19 C05 C04
+//@   from: C01 statement ("Delete reports whether the key was present"); C13 (heap order survives deletion); C07 ("failed calls change nothing")
+//@   requires [C05,C18] nolocks: locks == emptyLocks()
+//@   requires t != nil && t.store != nil && t.rootLock != nil && t.compare != nil
+//@   requires [C07] open-handle: t.root != nil
+//@   relies root-lock-is-private: t.rootLock != ref(freeNodeLock) && t.rootLock != ref(freeNodeLocLock) && t.rootLock != ref(freeRootNodeLocLock)
+//@   relies [C04] current-version-is-live: t.root.refs >= 1 && t.root.root != nil && t.root.next == nil
+//@   relies [C13] published-root-is-a-search-tree: bst(tvs[t.root.root])
+//@   relies a-current-version-has-never-been-superseded: t.root.chainedCollection == nil && t.root.chainedRootNodeLoc == nil
+//@   modifies t.root, rootNodeLoc.refs, rootNodeLoc.root, rootNodeLoc.next, rootNodeLoc.superseded, rootNodeLoc.chainedCollection, rootNodeLoc.chainedRootNodeLoc, node.numNodes, node.numBytes, node.next, itemLoc.loc, itemLoc.item, nodeLoc.loc, nodeLoc.node, nodeLoc.next, mem.ptr, t.store.nodeAllocs, G.freeNodes, G.freeNodeLocs, G.freeRootNodeLocs, AllocStats.MkNodes, AllocStats.AllocNodes, AllocStats.CurFreeNodes, AllocStats.FreeNodes, AllocStats.MkNodeLocs, AllocStats.AllocNodeLocs, AllocStats.CurFreeNodeLocs, AllocStats.FreeNodeLocs, AllocStats.MkRootNodeLocs, AllocStats.AllocRootNodeLocs, AllocStats.CurFreeRootNodeLocs, AllocStats.FreeRootNodeLocs, new ploc.Offset, new ploc.Length, new Item.Key, new Item.Val, new Item.Priority, new Item.Transient, new mem.byte, ghost net, ghost tvs, ghost ias, ghost io.fails, ghost io.reads, ghost io.valbytes, ghost src
+//@   ensures [C07] E1: io.fails >= old(io.fails) && (io.fails > old(io.fails) ==> err != nil)
+//@   ensures [C04] read-only-stores-refuse: old(t.store.readOnly) ==> err != nil && t.root == old(t.root) && tvs == old(tvs) && rootNodeLoc.refs == old(rootNodeLoc.refs) && net == old(net)
+//@   ensures [C01] reports-presence: err == nil ==> wasDeleted == mem(ord(key), old(tvs)[old(t.root.root)])
+//@   ensures [C01] deleted: err == nil ==> bst(tvs[t.root.root]) && (forall k {mem(k, tvs[t.root.root])} {mem(k, old(tvs)[old(t.root.root)])} :: mem(k, tvs[t.root.root]) == (mem(k, old(tvs)[old(t.root.root)]) && k != ord(key))) && (forall k {itemAt(k, tvs[t.root.root])} :: mem(k, tvs[t.root.root]) ==> itemAt(k, tvs[t.root.root]) == itemAt(k, old(tvs)[old(t.root.root)]))
+//@   ensures [C13] heap-order-kept: err == nil && hp(old(tvs)[old(t.root.root)]) ==> hp(tvs[t.root.root])
+//@   ensures [C04,C13] new-version-is-well-formed: err == nil ==> t.root != nil && t.root.refs >= 1 && t.root.root != nil && t.root.next == nil && t.root.chainedCollection == nil && t.root.chainedRootNodeLoc == nil
+//@   ensures [C07] failed-call-changes-nothing: err != nil ==> !wasDeleted && t.root == old(t.root) && t.root.refs == old(t.root.refs) && t.root.root == old(t.root.root) && tvs[t.root.root] == old(tvs)[old(t.root.root)]
+//@   ensures [C07,C10] failed-call-leaves-no-marks: err != nil ==> forall m {node.next[m]} :: !fresh(m) ==> node.next[m] == old(node.next[m])
 //@   ensures [C19] no-value-bytes: io.valbytes == old(io.valbytes)
